@@ -95,3 +95,5 @@ open Csproto
 #print axioms Csproto.Bridge.PackedEncFuncs.EncodePackedInt32_refines
 #print axioms Csproto.Bridge.PackedEncFuncs.EncodePackedInt64_refines
 #print axioms Csproto.Bridge.PackedEncFuncs.EncodePackedUInt32_refines
+#print axioms Csproto.Bridge.PackedEncFuncs.EncodePackedSInt64_refines
+#print axioms Csproto.Bridge.PackedEncFuncs.EncodePackedSInt32_refines
